@@ -118,6 +118,7 @@ class Tr:
         self.files = set()      # plan mode: local names aliasing the input file handle
         self.bufs = set()       # plan mode: local names of the BytesIO being filled
         self.payload_n = None   # gen mode: number of ints per yielded item
+        self.boolvars = set()   # Bool-typed locals
         self.pairs = set()      # locals bound to a `(text, int)` pair (the two results of `sorted((…, …))`)
         self.aliases = {}       # tests mode: local name -> (lean text, type) for non-int locals
         self.tests = []         # tests mode: (lets, lean text) per `if`
@@ -149,6 +150,8 @@ class Tr:
         if v is not None:
             if v in self.aliases:
                 return self.aliases[v]
+            if v in self.boolvars:
+                return v, "bool"
             if is_list(v):
                 self.use("len_" + v)
                 return "len_" + v, "list"          # only its truthiness / length can be used
@@ -308,6 +311,12 @@ class Tr:
             t = s.targets[0]
             if isinstance(t, ast.Name):
                 x, ty = self.expr(s.value)
+                if ty == "bool":
+                    saved, savedb = set(self.bound), set(self.boolvars)
+                    self.bound.add(mangle(t.id)); self.boolvars.add(mangle(t.id))
+                    out = [pad + f"let {mangle(t.id)} : Bool := {x}"] + self.block(rest, ind)
+                    self.bound, self.boolvars = saved, savedb
+                    return out
                 if ty != "int":
                     raise Unsupported("non-int local")
                 saved = set(self.bound)
